@@ -18,6 +18,7 @@ from ..exceptions import (
     InitialisationError,
     SolutionError,
 )
+from .. import _verif
 
 
 class SolutionStatus(enum.Enum):
@@ -450,6 +451,9 @@ class SolverMixin:
                 **kwargs,
             )
 
+            if _verif.ON:
+                _verif.emit('period', self, i=i, t=int(t), label=repr(period), solved=bool(solved[i]))
+
         return labels, indexes, solved
 
     def solve_period(
@@ -620,3 +624,7 @@ class SolverMixin:
         NaN/Inf, from it being propagated (it's not immediately obvious if this
         has any use, though).
         """
+
+
+if _verif.ON:
+    SolverMixin.solve = _verif.wrap_solve(SolverMixin.solve, 'model')
